@@ -46,6 +46,7 @@ type World struct {
 	Ext       map[string]any       // other simulated layers (simtransport) keep their registries here
 	udp       map[string]*UDPConn
 	dns       map[string][]net.IP
+	dnsSeq    map[string][][]net.IP // answers still to come, per name
 	nodeIP    map[string]net.IP
 	Dials     []DialRecord
 	UDPSent   []UDPRecord
@@ -102,6 +103,21 @@ func (w *World) ipOf(node string) net.IP {
 
 // SetDNS maps a host name to addresses.
 func (w *World) SetDNS(name string, ips ...net.IP) { w.dns[strings.ToLower(name)] = ips }
+
+// SetDNSSequence makes a name resolve to answers[0] at the first lookup, to
+// answers[1] at the second, and so on; the last answer stays (a name whose
+// address changes between two lookups: fail-over, round robin, rebinding).
+func (w *World) SetDNSSequence(name string, answers ...[]net.IP) {
+	if len(answers) == 0 {
+		return
+	}
+	k := strings.ToLower(name)
+	w.dns[k] = answers[0]
+	if w.dnsSeq == nil {
+		w.dnsSeq = map[string][][]net.IP{}
+	}
+	w.dnsSeq[k] = answers[1:]
+}
 
 func curNode() string {
 	if g := simrt.CurG(); g != nil {
